@@ -19,6 +19,28 @@ impl Channel {
 
 //@fn vls-core/src/channel.rs :: impl Channel :: get_chain_state mode=trusted
 //@end
+
+    // LDK key derivation / transaction builders: uninterpreted functions of the channel's static data and the arguments
+//@fn vls-core/src/channel.rs :: impl Channel :: make_holder_tx_keys mode=trusted
+    ensures r == holder_tx_keys_spec(self.keys, self.setup, *per_commitment_point),
+//@end
+//@fn vls-core/src/channel.rs :: impl Channel :: make_holder_commitment_tx mode=trusted
+    ensures r == holder_ctx_spec(self.keys, self.setup, commitment_number, *keys, feerate_per_kw, to_holder_value_sat, to_counterparty_value_sat, htlcs@),
+//@end
+//@fn vls-core/src/channel.rs :: impl Channel :: dummy_sig mode=trusted
+//@end
+}
+
+impl CommitmentInfo2 {
+//@fn vls-core/src/tx/tx.rs :: impl CommitmentInfo2 :: new mode=trusted
+    ensures info2_built(r, is_counterparty_broadcaster, to_countersigner_value_sat, to_broadcaster_value_sat,
+        offered_htlcs@, received_htlcs@, feerate_per_kw),
+//@end
+}
+
+impl HolderCommitmentTransaction {
+    #[verifier::external_body]
+    pub fn new(tx: CommitmentTransaction, sig: Signature, htlc_sigs: Vec<Signature>, a: &PublicKey, b: &PublicKey) -> Self { unimplemented!() }
 }
 
 impl EnforcementState {
@@ -49,5 +71,8 @@ impl VxValidator {
 //@end
 //@fn vls-core/src/policy/validator.rs :: trait Validator :: get_current_holder_commitment_info mode=trusted
 //@include frag/c/v_get_current_holder_commitment_info.rs
+//@end
+//@fn vls-core/src/policy/simple_validator.rs :: impl Validator for SimpleValidator :: validate_holder_commitment_tx mode=trusted
+//@include frag/c/sv_validate_holder_commitment_tx.rs
 //@end
 }
